@@ -62,6 +62,17 @@ func leaves(tk tokens) []tree {
 		add(&net.AddrError{Err: "missing port in address", Addr: addr}, "AddrError", secret{tok, "AddrError.Addr"})
 	}
 	add(&net.AddrError{Err: "invalid port", Addr: ""}, "AddrError(empty)")
+	// every reason the standard library gives in an AddrError, each with the
+	// address forms a caller can have put in Addr: what the reason says about
+	// the field is not a promise that the field holds no address
+	for ri, reason := range []string{"invalid port", "unknown network", "unknown port", "too many colons in address", "missing ']' in address", "unexpected '[' in address", "unexpected ']' in address", "mismatched local address type", "no suitable address found", "non-IPv4 address", "non-IPv6 address", "unexpected address type", "missing address", "invalid IP address"} {
+		forms := []struct{ addr, tok string }{{tk.host, tk.host}, {tk.v4 + ":9001", tk.v4}, {"[" + tk.v6 + "]:443", tk.v6}, {tk.v6b, tk.v6b}, {"tcp/" + tk.host2 + ":https", tk.host2}, {tk.v4b, tk.v4b}}
+		for fi, f := range forms {
+			if (ri+fi)%2 == 0 || ri < 3 {
+				add(&net.AddrError{Err: reason, Addr: f.addr}, "AddrError("+reason+")", secret{f.tok, "AddrError.Addr"})
+			}
+		}
+	}
 	for _, v := range []struct {
 		srv            string
 		nf, tmo, temp  bool
